@@ -262,6 +262,11 @@ class Interp:
         return out
 
     def default_value(self, obj, path, t):
+        # a pointer member that the constructor points at storage the object owns (declared by the rule module): the storage is
+        # modelled as a pseudo-field of the same object, so that accesses stay attributed to the object
+        hf = getattr(self, 'heap_fields', None)
+        if hf and path and isinstance(path[-1], str) and path[-1] in hf:
+            return P(obj, path[:-1] + (hf[path[-1]], 0))
         return TOP
 
     def enum_default(self, v, t):
@@ -756,6 +761,17 @@ class Interp:
                 if c is not None:
                     out.append((s, c))
                     continue
+                part = self._lookup_partition(s, fr, n['lhs'], b, n['op']) if b[0] == 'c' else (
+                    self._lookup_partition(s, fr, n['rhs'], a, FLIP[n['op']]) if a[0] == 'c' else None)
+                if part is not None:
+                    symname, tset, fset = part
+                    for truthv, ss in ((True, tset), (False, fset)):
+                        if ss:
+                            s2 = s.copy()
+                            s2.sym[symname] = (min(ss), max(ss))
+                            s2.note((nloc(n), truthv))
+                            out.append((s2, truthv))
+                    continue
                 self.stats['forks'] += 1
                 for truthv in (True, False):
                     s2 = s.copy()
@@ -766,12 +782,50 @@ class Interp:
             return out
         return self._cond_value(n, st, fr, n0)
 
+    def _lookup_partition(self, s, fr, vn, const, op):
+        """vn is a load table[x] of a fully known constant table with x one ranged symbol: the sets of values of x for which
+        (table[x] op const) holds / does not hold.  Lets a predicate written as a table test refine its argument."""
+        lvn = self._lvalue_of_rvalue(vn)
+        if lvn is None or lvn.get('k') != 'ArraySubscriptExpr':
+            return None
+        snap = s.copy()
+        r = self.ev_list([lvn['base'], lvn['idx']], snap, fr)
+        if len(r) != 1:
+            return None
+        s1, (bv, iv) = r[0]
+        if not (is_ptr(bv) and bv[0] == 'p' and iv[0] == 'l' and iv[1] == 0 and len(iv[2]) == 1 and iv[2][0][1] == 1):
+            return None
+        symname = iv[2][0][0]
+        rr = s.sym.get(symname)
+        if rr is None or rr[1] - rr[0] > 4096 or not bv[2] or not isinstance(bv[2][-1], int):
+            return None
+        tset, fset = [], []
+        n_oob = len(self.oob)
+        for x in range(rr[0], rr[1] + 1):
+            v = self.load(s1, (bv[1], bv[2][:-1] + (bv[2][-1] + x,)))
+            c = compare(op, v, const, s1.sym) if v is not None and v[0] == 'c' else None
+            if c is None:
+                del self.oob[n_oob:]        # not a fully known table over this range: the ordinary load reports what it has to
+                return None
+            (tset if c else fset).append(x)
+        return symname, tset, fset
+
     def _cond_value(self, n, st, fr, n0):
         out = []
         for s, v in self.ev(n, st, fr):
             tv = truth(v, s.sym)
             if tv is not None:
                 out.append((s, tv))
+                continue
+            part = self._lookup_partition(s, fr, n, C(0), '!=')
+            if part is not None:
+                symname, tset, fset = part
+                for truthv, ss in ((True, tset), (False, fset)):
+                    if ss:
+                        s2 = s.copy()
+                        s2.sym[symname] = (min(ss), max(ss))
+                        s2.note((nloc(n0), truthv))
+                        out.append((s2, truthv))
                 continue
             self.stats['forks'] += 1
             for truthv in (True, False):
